@@ -138,6 +138,49 @@ def oracle(g, obs):
     return bad
 
 
+def value_signal_part(ctx):
+    """wait_for naming a DATA output (allowed: "an emit or output_name"): a loop whose gate waits for a per-iteration status
+    value.  Every production of the name counts - the gate runs once per iteration and the loop reaches its bound - whether the
+    produced values differ from pass to pass or happen to be equal."""
+    import asyncio
+    from hypergraph import END, AsyncRunner, Graph, SyncRunner
+    from hypergraph.nodes import FunctionNode, RouteNode
+    rng = ctx.rng
+    n = 0
+    for _ in range(ctx.n(16, 120)):
+        limit = rng.randint(1, 5)
+        constant = rng.random() < 0.5           # the status is the same value every pass / changes every pass
+        runner = rng.choice(["sync", "async"])
+        log = []
+
+        def inc(count):
+            log.append("inc")
+            return count + 1
+
+        def stat(count, constant=constant):
+            log.append("stat")
+            return "ok" if constant else f"ok{count}"
+
+        def check(count, limit=limit):
+            log.append("check")
+            return END if count >= limit else "inc"
+        G = Graph([FunctionNode(inc, name="inc", output_name="count"), FunctionNode(stat, name="stat", output_name="status"),
+                   RouteNode(check, targets=["inc", END], wait_for="status", default_open=False, name="check")])
+        try:
+            res = SyncRunner().run(G, {"count": 0}, max_iterations=80) if runner == "sync" else asyncio.run(AsyncRunner().run(G, {"count": 0}, max_iterations=80))
+        except Exception as e:  # noqa: BLE001
+            ctx.violation("oracle", f"value-signal loop raised {type(e).__name__}: {e}", case={"family": "value_signal", "limit": limit, "constant_status": constant})
+            continue
+        n += 1
+        case = {"family": "value_signal", "limit": limit, "constant_status": constant, "runner": runner}
+        if res.values.get("count") != max(limit, 1) or log.count("check") != log.count("stat"):
+            ctx.violation("oracle", f"gate waiting for the data output 'status' ({'the same value' if constant else 'a new value'} every pass): 'status' was produced "
+                          f"{log.count('stat')} time(s), the gate ran {log.count('check')} time(s), the loop ended at count={res.values.get('count')} "
+                          f"(bound {limit}) with status {res.status.value}: a production of the waited-for name was not followed by a run of the waiter",
+                          case=case)
+    return n
+
+
 def run(ctx):
     rng = ctx.rng
     cases, meta = [], []
@@ -223,9 +266,10 @@ def run(ctx):
                 msgs.append(f"consume (waits for both signals) ran {count(obs, 'consume')} times; both signals were produced together {exp} times")
         return msgs
 
+    n_value_signal = value_signal_part(ctx)
     obs_all, res = engine.run_cases(ctx, "C17", cases, extra=extra)
     ctx.coverage.update(
-        evaluations=len(cases), coq_checks=res["n"], distinct_nontrivial=len(nontrivial),
+        evaluations=len(cases) + n_value_signal, coq_checks=res["n"], distinct_nontrivial=len(nontrivial),
         rule="DAGs with emit/wait_for pairs (several waiters per signal), two ordered stages emitting one signal with a waiter fed by a side "
              "chain of length 0-3, a cycle whose waiter awaits two signals one of which is produced every other iteration, a gate as "
              "producer, loops whose gate waits on the end-of-iteration signal, signals emitted inside nested graphs (plain, mapping, two levels, "
